@@ -51,6 +51,9 @@ def generate(rng: random.Random, tier: str):
     yield from reversed_range_cases(rng, 40 if quick else 400)
     # ... and empty slices that claim open sides, at positions whose depths are consistent with the claim
     yield from empty_open_cases(rng, 160 if quick else 1200)
+    # ... and steps decoded from JSON whose slice carries NEGATIVE open depths (appended stream): decoding or applying may
+    # refuse (ValueError family), nothing may die with an internal error (used to: IndexError inside Node.replace)
+    yield from negative_open_json_cases(rng, 12 if quick else 150)
 
 
 def counted_cases(rng, n):
@@ -188,6 +191,31 @@ def empty_open_cases(rng, n):
             # built directly: Slice.to_json drops the open depths of an empty slice, so JSON cannot carry this shape
             st = ReplaceStep(a, c, Slice(Fragment.empty, os_, oe))
             yield S.apply_case(fam, doc, st, True, "empty-open-slice")[0]
+
+
+def negative_open_json_cases(rng, n):
+    from prosemirror.model import Slice
+    from prosemirror.transform import ReplaceStep, Step
+    for fam in ("list", "table"):
+        g, docs = S.family_docs(rng, fam, 4)
+        sc = gen.family(fam)
+        for _ in range(n // 2):
+            doc = rng.choice(docs)
+            ps = S.boundary_positions(doc)
+            a, c = sorted((rng.choice(ps), rng.choice(ps)))
+            sl = g.slice_from(rng.choice(docs))
+            base = ReplaceStep(a, c, Slice.empty)      # the recorded model case: the plain deletion of the same range
+            j = ReplaceStep(a, c, Slice(sl.content, 0, 0)).to_json()
+            j["slice"] = dict(j.get("slice") or {"content": []}, openStart=rng.choice([-1, -1, -2, 0]), openEnd=rng.choice([-1, -2]))
+            case = S.apply_case(fam, doc, base, True, "negative-open-json")[0]
+            case.desc["negative_open_json"] = j
+            try:
+                Step.from_json(sc, j).apply(doc)
+            except ValueError:
+                pass
+            except Exception as e:  # noqa: BLE001
+                case.desc["impl_failure"] = f"Step.from_json({j!r}).apply(doc) raised {type(e).__name__}: {e}"[:300]
+            yield case
 
 
 def Mark_same(a, b):
